@@ -368,6 +368,23 @@ func TestVerifReplay(t *testing.T) {
 			}
 		}
 	}
+	// length sweep: every length 1..100 for a few recipe shapes, so that counts near every power of two up to
+	// 2^600 occur (machine-word and float64 boundaries of the count show up as a single wrong length)
+	for _, base := range []ccRecipe{
+		{Require: Digits},
+		{AllowChars: "c", RequireSets: []string{"ab"}},
+		{Allow: Lowers, Require: Digits, RequireSets: []string{"357"}},
+		{Allow: Letters | Digits, Require: Symbols},
+		{AllowChars: "ab", RequireSets: []string{"ab", "b"}},
+	} {
+		for L := 1; L <= 100; L++ {
+			c := base
+			c.Length = L
+			if run(c, false) {
+				return
+			}
+		}
+	}
 	lens := []int{1, 2, 3, 5, 8, 20, 63, 64, 172, 400, 1000, 4000}
 	for i := 0; i < n; i++ {
 		c := ccRecipe{Length: lens[r.intn(len(lens))], Allow: CTFlag(r.intn(32)), Require: CTFlag(r.intn(32)) & CTFlag(r.intn(32)), Exclude: CTFlag(r.intn(32)) & CTFlag(r.intn(32))}
